@@ -153,11 +153,32 @@ def subDone (ns : NState) (S : SetM) (k : Nat) : Bool :=
   | some (m, tid) => (match ns.members[m]? with | some M => pcOf M tid == .done | none => true)
   | none => true
 
-/-- a `next()` on a finished iterator returns at once (no statement of the member runs) -/
+def pullIdx : Pull → Nat
+  | .create k => k
+  | .next k => k
+
+/-- the pull would run a statement of the member: a `next()` on an iterator that has not finished, an `iter(x)`
+    whose `__iter__` has not run yet -/
+def pullLive (ns : NState) (S : SetM) (p : Pull) : Bool :=
+  match S.subs[pullIdx p]? with
+  | some (m, tid) =>
+    (match ns.members[m]? with
+     | some M => (match p with
+                  | .next _ => !(pcOf M tid == .done)
+                  | .create _ => RSet.inDispatch (pcOf M tid))
+     | none => false)
+  | none => false
+
+/-- pulls that run no statement of the member (a `next()` on a finished iterator returns at once) are skipped -/
 def normPulls (ns : NState) (S : SetM) : List Pull → List Pull
   | [] => []
-  | .next k :: rest => if subDone ns S k then normPulls ns S rest else .next k :: rest
-  | .create k :: rest => .create k :: rest
+  | p :: rest => if pullLive ns S p then p :: rest else normPulls ns S rest
+
+/-- the pull is complete after this statement of the member: `iter(x)` has returned / the iterator has yielded or ended -/
+def pullFin (p : Pull) (M M' : Cache.State) (tid : Tid) : Bool :=
+  match p with
+  | .create _ => !(RSet.inDispatch (pcOf M' tid))
+  | .next _ => decide (RSet.yieldedLen M tid < RSet.yieldedLen M' tid) || pcOf M' tid == .done
 
 /-- the single lock of the `shared` variant: held iff some object's lock field is set -/
 def anyLock (ns : NState) : Bool :=
@@ -183,8 +204,7 @@ def setStep (ns : NState) (si : Nat) (t : Tid) : Option (NState × PC) :=
       match S.pulls with
       | [] => none
       | p :: rest =>
-        let k := match p with | .create k => k | .next k => k
-        match S.subs[k]? with
+        match S.subs[pullIdx p]? with
         | none => none
         | some (m, tid) =>
           match ns.members[m]? with
@@ -193,9 +213,7 @@ def setStep (ns : NState) (si : Nat) (t : Tid) : Option (NState × PC) :=
             match lockStep ns M tid with
             | none => none
             | some M' =>
-              let fin : Bool := match p with
-                | .create _ => !(RSet.inDispatch (pcOf M' tid))
-                | .next _ => decide (RSet.yieldedLen M tid < RSet.yieldedLen M' tid) || pcOf M' tid == .done
+              let fin : Bool := pullFin p M M' tid
               let ns1 : NState := { ns with members := ns.members.set m M' }
               let pulls' := if fin then normPulls ns1 S rest else p :: rest
               some ({ ns1 with sets := ns.sets.set si { S with pulls := pulls' } }, pcOf M' tid)
